@@ -247,7 +247,7 @@ pub fn c15_tournament_adjacency_list_n3() {
 }
 
 // AdjacencyMap::random_tournament(3, every seed) with 2 workers (Mutex-protected rows; sequential thread model).
-// @verif prop=C15 tier=quick fl=f2 feat=map4 role=tournament/adjacency-map t=2400 mem=20
+// @verif prop=C15 tier=quick fl=f2 feat=map4 role=tournament/adjacency-map t=2400 mem=20 par=2
 #[cfg_attr(kani, kani::proof)]
 #[cfg_attr(kani, kani::unwind(8))]
 pub fn c15_tournament_adjacency_map_n3_t2() {
@@ -305,7 +305,7 @@ pub fn c15_erdos_renyi_edge_list_n3() {
 }
 
 // AdjacencyMap::erdos_renyi (threaded, complement for p > 0.5) with 2 workers.
-// @verif prop=C15 tier=quick fl=f2 feat=map4 role=erdos-renyi/adjacency-map t=2400 mem=20
+// @verif prop=C15 tier=quick fl=f2 feat=map4 role=erdos-renyi/adjacency-map t=2400 mem=20 par=2
 #[cfg_attr(kani, kani::proof)]
 #[cfg_attr(kani, kani::unwind(8))]
 pub fn c15_erdos_renyi_adjacency_map_n3_t2() {
